@@ -192,7 +192,13 @@ fn mixed(r: &mut Rng, thorough: bool, tag: &str, fault: u8, p_invalid: u64) -> S
                 // identical nonce reused from another socket
                 let nonce = reuse_nonce.clone().unwrap_or_else(|| g.r.bytes(64));
                 reuse_nonce = Some(nonce.clone());
-                classic_request(&nonce, 1024)
+                // classic: the same request again; IETF: the same NONC in a DIFFERENT packet (other length, with / without
+                // SRV) — the draft-13 Merkle leaf is the whole packet (seeded change C02-r8 shared a leaf per nonce)
+                match g.r.below(3) {
+                    0 => classic_request(&nonce, 1024),
+                    1 => { let len = 1024 + 4 * g.r.below(100) as usize; ietf_request(&VER13, None, &nonce[..32], len) }
+                    _ => { let srv = g.srv.clone(); let len = 1024 + 4 * g.r.below(100) as usize; ietf_request(&VER13, Some(&srv), &nonce[..32], len) }
+                }
             } else {
                 g.valid_any()
             };
@@ -385,6 +391,28 @@ fn c02_cases(out: &mut Out, r: &mut Rng, thorough: bool) {
             bursts.push(burst);
         }
         run_scenario(out, Scenario { cfg, nclients: 8, bursts, sentinel: false, tag: "c02".into(), pauses: vec![] });
+    }
+    // requests that SHARE a nonce without being the same request (the same NONC in packets of different length, with and
+    // without SRV, both protocols from the first 32 bytes of one 64-byte nonce) next to exact retransmissions, in one
+    // batch: every reply must still prove ITS OWN request (the draft-13 leaf is the whole packet — seeded change C02-r8)
+    for k in 0..(if thorough { 24 } else { 6 }) {
+        let mut g = Gen::new(r);
+        let cfg = cfg_of(&mut g, 64, 0, "off");
+        let nonce = if k % 3 == 0 { vec![0u8; 64] } else { g.r.bytes(64) };
+        let m = 2 + g.r.below(12) as usize;
+        let mut burst: Vec<(usize, Vec<u8>)> = vec![];
+        for i in 0..m {
+            let srv = g.srv.clone();
+            let d = match g.r.below(5) {
+                0 => classic_request(&nonce, 1024),
+                1 => classic_request(&nonce, 1024 + 4 * g.r.below(100) as usize),
+                2 => ietf_request(&VER13, None, &nonce[..32], 1024 + 4 * g.r.below(100) as usize),
+                3 => ietf_request(&VER13, Some(&srv), &nonce[..32], 1024 + 4 * g.r.below(100) as usize),
+                _ => ietf_request(&VER13, None, &nonce[..32], 1024),
+            };
+            burst.push((i % 8, d));
+        }
+        run_scenario(out, Scenario { cfg, nclients: 8, bursts: vec![burst], sentinel: false, tag: "c02-samenonce".into(), pauses: vec![] });
     }
     // configured batch_size 1..=64 with bursts larger than the batch
     let bsizes: Vec<u8> = if thorough { (1..=64).collect() } else { vec![1, 2, 3, 8, 63, 64] };
